@@ -198,7 +198,14 @@ extern int mpt_axis_set(MPT_STRUCT(axis) *ax, const char *name, MPT_INTERFACE(co
 			ax->format &= ~MPT_ENUM(TransformLg);
 			ax->intv = 0;
 		}
-		if (len >= 0 || (len = src->_vptr->convert(src, 's', &l)) < 0 || len < 0 || !l) {
+		if (len >= 0) {
+			ax->format &= ~MPT_ENUM(TransformLg);
+		}
+		/* value not accepted, keep current state */
+		else if ((len = src->_vptr->convert(src, 's', &l)) < 0) {
+			return len;
+		}
+		else if (!l) {
 			ax->format &= ~MPT_ENUM(TransformLg);
 		}
 		else if (!strncasecmp(l, "log", 3)) {
